@@ -54,9 +54,9 @@ def option_space(name, d, n_classes):
   if name in ('RCA', 'RCA_Supervised'):
     return dict(n_components=ks)
   if name in ('ITML', 'ITML_Supervised', 'LSML', 'LSML_Supervised', 'SDML', 'SDML_Supervised'):
-    return dict(prior=['identity', 'covariance', 'random', 'array'])
+    return dict(prior=['identity', 'covariance', 'random', 'array', 'diag-array'])
   if name in ('MMC', 'MMC_Supervised'):
-    return dict(init=['identity', 'covariance', 'random', 'array'])
+    return dict(init=['identity', 'covariance', 'random', 'array', 'diag-array'])
   if name == 'SCML':
     return dict(basis=['triplet_diffs', 'array'])
   if name == 'SCML_Supervised':
@@ -90,14 +90,18 @@ def materialize(name, opts, data, aseed=0, extra=None):
   p.update(opts)
   if extra:
     p.update(extra)
-  if p.get('init') == 'array':
+  if isinstance(p.get('init'), str) and p.get('init') == 'array':
     if name in ('MMC', 'MMC_Supervised'):
       p['init'] = gen.spd_from_seed(d, aseed)
     else:
       k = p.get('n_components') or d
       p['init'] = gen.transform_from_seed(k, d, aseed)
-  if p.get('prior') == 'array':
+  if isinstance(p.get('prior'), str) and p.get('prior') == 'array':
     p['prior'] = gen.spd_from_seed(d, aseed)
+  if isinstance(p.get('prior'), str) and p.get('prior') == 'diag-array':
+    p['prior'] = np.diag(0.5 + np.random.RandomState(aseed).rand(d) * 3)
+  if isinstance(p.get('init'), str) and p.get('init') == 'diag-array':
+    p['init'] = np.diag(0.5 + np.random.RandomState(aseed).rand(d) * 3)
   if isinstance(p.get('basis'), str) and p.get('basis') == 'array':
     K = p.pop('n_basis_array', None) or (d + 4)
     p['basis'] = gen.basis_from_seed(K, d, aseed)
